@@ -175,7 +175,7 @@ def run(ctx):
             if size <= 20000:
                 jobs.append((job_family, (n, full, full, 1, 0)))
             else:
-                target = 12000 if quick else 50000          # models of this size class bound to the code
+                target = 6000 if quick else 50000          # models of this size class bound to the code
                 stride = max(17, (size // target) | 1)      # odd and not a multiple of 3: residues spread over the tables
                 while stride % 3 == 0:
                     stride += 2
@@ -186,7 +186,7 @@ def run(ctx):
     for T in (2, 3):
         for n in itertools.product([1, 2], repeat=T):
             size = 3 ** (sum(n) + sum(n[k] * n[k + 1] for k in range(T - 1)))
-            target = 4000 if quick else 30000
+            target = 2000 if quick else 30000
             stride = max(1, (size // target) | 1)
             while stride > 1 and stride % 3 == 0:
                 stride += 2
